@@ -91,6 +91,7 @@ def run(ctx):
     for spec in [s for s in c12.OPS if s[2] in ("__add__", "__radd__", "__sub__", "copy") and s[1] != "HistogramCollection"]:
         c12.check_op(ctx, m, "C05.b", "C05.b", *spec)
     c12.check_inplace(ctx, m, "C05.b", "HistogramBase", "__iadd__")
+    c12.check_copy_contents(ctx, "C05.b", m)
     # C12's helpers use their own keys for freshness and write-discipline under the same rule id: fine, keys differ? make sure
     # ---- C05.c one grid for both operands -----------------------------------------------------------------------
     ctx.rule("C05.c", "adaptive branch: both operands re-binned onto the same new binning with their own maps on the same axis; "
